@@ -796,7 +796,7 @@ def mat_fixture(n):
     for k in ("WX", "WXY", "WY", "SIG"):
         base.append(Parameter.create(k, others[k]))
     base = Parameters.create(base)
-    fx = {"nm": nm, "rvs1": rvs1, "rvs": rvs, "base": base, "others": others}
+    fx = {"nm": nm, "rvs1": rvs1, "rvs": rvs, "base": base, "others": others, "rvs_without_block": RandomVariables.create([d2, d3])}
     _MAT_CACHE[n] = fx
     return fx
 
@@ -883,6 +883,11 @@ def check_matrix(n, vals, level):
         m2 = m0.replace(parameters=params)
         ncmp += 1
         fails.extend(compare_repaired(m2.parameters.inits, values, nm, pos, psd, ref, scale, "Model.replace", fx["others"]))
+        # only the random variables are replaced: the parameters (whose block entries no distribution used so far) stay
+        m00 = Model.create(name="m", parameters=params, random_variables=fx["rvs_without_block"])
+        m3 = m00.replace(random_variables=fx["rvs"])
+        ncmp += 1
+        fails.extend(compare_repaired(m3.parameters.inits, values, nm, pos, psd, ref, scale, "Model.replace(random_variables=...)", fx["others"]))
     except REFUSALS as ex:
         labels.append(f"B:model-refused:{type(ex).__name__}")
     except Exception as ex:
